@@ -33,6 +33,7 @@ pub const SPEC: PropSpec = PropSpec {
 pub struct Local {
     ok: u64,
     scale_docs: u64,
+    follow_events: u64,
     nested: u64,
     empty_span: u64,
     failed: u64,
@@ -305,14 +306,16 @@ fn check_with<R: Rd>(mut r: R, input: &[u8], cfg: u8, kind: SrcKind, loc: &mut L
                     Ok(sp) if sp == (start, end) => {
                         let k = reference.iter().enumerate().skip(i).find(|(_, (o, q))| *q == close_after && matches!(o, Obs::Ev(Kind::End, _, _)));
                         if let Some((k, _)) = k {
-                            if let Some(follow) = reference.get(k + 1) {
+                            let upto = if input.len() > 2000 { (k + 7).min(reference.len()) } else { reference.len() };
+                            for (n, follow) in reference[k + 1..upto].iter().enumerate() {
                                 let (o2, p2) = ca.next()?;
                                 if (&o2, p2) != (&follow.0, follow.1) {
                                     return Err(format!(
-                                        "after read_to_end({:?}) called from inside its child {:?} (span {}..{}) the next event is {} @{} but the uncloned run continues with {} @{}",
-                                        show(anc), show(&name), start, end, o2.show(), p2, follow.0.show(), follow.1
+                                        "after read_to_end({:?}) called from inside its child {:?} (span {}..{}) event {} behind the end tag is {} @{} but the uncloned run continues with {} @{}",
+                                        show(anc), show(&name), start, end, n, o2.show(), p2, follow.0.show(), follow.1
                                     ));
                                 }
+                                loc.follow_events += 1;
                             }
                         }
                         loc.ancestor_skips += 1;
@@ -384,20 +387,25 @@ fn check_with<R: Rd>(mut r: R, input: &[u8], cfg: u8, kind: SrcKind, loc: &mut L
                 // next event of the clone = what follows the end tag in the uncloned run
                 let k = reference.iter().enumerate().skip(i + 1).find(|(_, (o, q))| *q == *close_after && matches!(o, Obs::Ev(Kind::End, _, _)));
                 if let Some((k, _)) = k {
-                    if let Some(follow) = reference.get(k + 1) {
+                    // ... and so is everything after it: the skip must leave no trace in the reader's state
+                    // (open-element stack, pending states), also where that shows only several events later
+                    let upto = if input.len() > 2000 { (k + 7).min(reference.len()) } else { reference.len() };
+                    for (n, follow) in reference[k + 1..upto].iter().enumerate() {
                         let (o2, p2) = c.next()?;
                         if (&o2, p2) != (&follow.0, follow.1) {
                             return Err(format!(
-                                "after read_to_end({:?}) (span {}..{}) the next event is {} @{} but the uncloned run continues with {} @{}",
+                                "after read_to_end({:?}) (span {}..{}) event {} behind the end tag is {} @{} but the uncloned run continues with {} @{}",
                                 show(&name),
                                 start,
                                 end,
+                                n,
                                 o2.show(),
                                 p2,
                                 follow.0.show(),
                                 follow.1
                             ));
                         }
+                        loc.follow_events += 1;
                     }
                 } else if c.pos() != *close_after {
                     return Err(format!("after read_to_end the position is {} but the end tag ends at {}", c.pos(), close_after));
@@ -414,6 +422,20 @@ fn check_with<R: Rd>(mut r: R, input: &[u8], cfg: u8, kind: SrcKind, loc: &mut L
                     }
                     if c2.cfg() != cfg_before {
                         return Err("config() changed by read_text".into());
+                    }
+                    // the reader continues as the uncloned run does behind that end tag
+                    if let Some((k, _)) = k {
+                        let upto = if input.len() > 2000 { (k + 7).min(reference.len()) } else { reference.len() };
+                        for (n, follow) in reference[k + 1..upto].iter().enumerate() {
+                            let (o2, p2) = c2.next()?;
+                            if (&o2, p2) != (&follow.0, follow.1) {
+                                return Err(format!(
+                                    "after read_text({:?}) event {} behind the end tag is {} @{} but the uncloned run continues with {} @{}",
+                                    show(&name), n, o2.show(), p2, follow.0.show(), follow.1
+                                ));
+                            }
+                            loc.follow_events += 1;
+                        }
                     }
                 }
             }
@@ -609,6 +631,7 @@ fn run(ctx: &mut Ctx) {
 fn flush(ctx: &mut Ctx, loc: &Local) {
     ctx.add("skips.ok", loc.ok);
     ctx.add("scale_documents", loc.scale_docs);
+    ctx.add("events_compared_behind_the_skipped_element", loc.follow_events);
     ctx.add("skips.same_name_nested", loc.nested);
     ctx.add("skips.empty_span_expanded", loc.empty_span);
     ctx.add("skips.failed", loc.failed);
